@@ -12,6 +12,7 @@ are added, and Trace_SplitDist (TLC) judges every logged call.
 The Python side is a driver: it builds objects, calls the public API, projects
 what it sees (floats as rationals, vlib/x_c05.frat) and logs events.
 """
+import copy
 import os
 import random
 import re
@@ -81,6 +82,33 @@ class World(object):
     def count(self, h, tree, w):
         hd = self.holders[h]
         g = proj.tree_graph(tree)
+        if hd["kind"] == "sd":
+            route = "sd.count_splits_on_tree"
+            _, raised = self.call(lambda: hd["obj"].count_splits_on_tree(tree))
+        else:
+            route = "ta.add_tree"
+            _, raised = self.call(lambda: hd["obj"].add_tree(tree))
+        e = self.base(h, "Count", route, raised)
+        e.update({"g": g, "w": list(w) if w is not None else [0, 0]})
+        self.evs.append(e)
+
+    def refused_count(self, h, nested, w, why):
+        """a counting call the library documents as an error, in the middle of a counting history:
+        'not-ultrametric' (node ages on), 'foreign-namespace', 'other-rooting' (TreeArray only)"""
+        hd = self.holders[h]
+        nested = copy.deepcopy(nested)
+        if why == "not-ultrametric":
+            def first_leaf(nd):
+                return nd if not nd[3] else first_leaf(nd[3][0])
+            lf = first_leaf(nested)
+            lf[2] = (lf[2] or 0.0) + 0.5
+            tree = self.tree(nested, w)
+        elif why == "foreign-namespace":
+            ns2, taxa2 = build.make_namespace(self.dp, self.case["n"])
+            tree = build.build_tree(self.dp, nested, ns2, taxa2, rooted=self.rooted)
+        else:
+            tree = build.build_tree(self.dp, nested, self.ns, self.taxa, rooted=not self.rooted)
+        g = proj.tree_graph(tree, codes=proj.TaxonCodes(self.ns))
         if hd["kind"] == "sd":
             route = "sd.count_splits_on_tree"
             _, raised = self.call(lambda: hd["obj"].count_splits_on_tree(tree))
@@ -336,7 +364,13 @@ def run_case(case):
     w.new_holder(1, case["holder"])
     trees = case["trees"]
     probe_at = rng.randrange(len(trees)) if trees else -1
+    # refused calls interleaved with the accepted ones: the caller catches the documented error and goes on counting
+    kinds = ["foreign-namespace"] + (["other-rooting"] if case["holder"] == "ta" else []) + (["not-ultrametric"] * 3 if w.ag else [])
+    refuse_at = rng.randrange(len(trees) + 1) if trees else -1
     for k, t in enumerate(trees):
+        if k == refuse_at or (full and k > 0 and rng.random() < 0.2):
+            src = rng.choice(trees)
+            w.refused_count(1, src["nested"], src["w"], rng.choice(kinds))
         tr = w.tree(t["nested"], t["w"])
         tl.append(tr)
         w.tl_weights.append(t["w"])
@@ -347,6 +381,9 @@ def run_case(case):
             w.summarize(1, t["nested"], {}, "input")
             if full:
                 w.consensus(1, rng.choice(case["thr"]), w.holders[1]["kind"] + ".consensus_tree", {})
+    if trees and refuse_at == len(trees):
+        src = rng.choice(trees)
+        w.refused_count(1, src["nested"], src["w"], rng.choice(kinds))
     battery(w, 1, tl, case, full)
     # TreeList routes: a distribution / array built in one call from the same trees
     w.rebuild(3, 1, "tl.as_tree_array", tl)
@@ -443,13 +480,16 @@ def model_cases(ctx, cfg):
         for it in ms:
             H = [frozenset(t - 1 for t in c) for c in it["h"]]
             lens = dict((frozenset(t - 1 for t in c), (v / 4.0 if v >= 0 else None)) for c, v in it["len"].items())
-            nested = X.nested_from_clades(H, n, lens, rng=rng, p_unif=0.15)
+            ultra = bool(st["rooted"]) and k % 4 == 1
+            if ultra:
+                lens = X.random_lengths(rng, set(H), n, "ultra")
+            nested = X.nested_from_clades(H, n, lens, rng=rng, p_unif=0.0 if ultra else 0.15)
             trees.append({"nested": nested, "w": list(it["wq"])})
         holder = "ta" if k % 2 else "sd"
         case = {"kind": "model", "seed": ctx.seed * 7919 + k, "n": n, "rooted": bool(st["rooted"]), "uw": (k % 11) != 0,
-                "el": (k % 13) != 0, "ag": False, "holder": holder, "trees": trees[:1] if len(trees) > 1 and k % 3 == 0 else trees,
+                "el": (k % 13) != 0, "ag": bool(st["rooted"]) and k % 4 == 1, "holder": holder, "trees": trees[:1] if len(trees) > 1 and k % 3 == 0 else trees,
                 "thr": THR_MODEL, "foreign": [], "rebuild_sd": k % 5 == 0,
-                "lmode": "none" if all(v < 0 for it in ms for v in it["len"].values()) else "num"}
+                "lmode": "ultra" if (bool(st["rooted"]) and k % 4 == 1) else ("none" if all(v < 0 for it in ms for v in it["len"].values()) else "num")}
         if len(trees) > 1 and k % 3 == 0:
             case["other"] = trees[1:]
         cases.append(case)
@@ -534,6 +574,8 @@ def run(ctx):
     # Update(a, b); CountTree(a, ..): b stays the distribution of its own tree; an update() that adopts b's lists is caught
     ctx.model("MC_SplitDist", "MC_SplitDist_operand.cfg", heap="1g", count=False)
     ctx.model("MC_SplitDist", "Alias_SplitDist.cfg", expect_violation="OperandIntact", count=False, heap="1g")
+    # a refused counting call is the identity; book-keeping done before the refusing check is caught
+    ctx.model("MC_SplitDist", "Refuse_SplitDist.cfg", expect_violation="FreqExact", count=False, heap="1g")
     # ... and a cache that ignores newly counted trees is caught (non-vacuity of CacheFresh)
     ctx.model("MC_SplitDist", "Stale_SplitDist.cfg", expect_violation="CacheFresh", count=False, heap="1g")
     # 2. spec -> code: the dumped multisets on real objects
